@@ -172,3 +172,12 @@ package cluster
 //@   loop 1 invariant 0 <= i && i <= n && ghost.spawned == old(ghost.spawned) + i && ghost.fwd == old(ghost.fwd) && len(result) == n
 //@   ensures [no_servers_passthrough] n == 0 ==> ghost.fwd == old(ghost.fwd) + 1 && ghost.spawned == old(ghost.spawned)
 //@   ensures [one_worker_per_server] n > 0 ==> ghost.spawned == old(ghost.spawned) + n
+
+// the constructor keeps an explicit retry budget, 0 included (0 = never retry); only a negative
+// one means "use the default"
+//@ func New
+//@   prop C16
+//@   havoc
+//@   ensures [an_explicit_retry_budget_is_kept] len(config) > 0 && config[0].Retry >= 0 ==> cluster != nil && cluster.Retry == config[0].Retry
+//@   ensures [a_negative_budget_means_the_default] len(config) > 0 && config[0].Retry < 0 ==> cluster != nil && cluster.Retry == 10
+//@   ensures [the_idempotence_default_is_the_configured_one] len(config) > 0 ==> cluster.Idempotent == config[0].Idempotent
